@@ -12,7 +12,7 @@ HEADER = 'From Hts Require Import Base.Prim Model.Flat Model.Reader.\nOpen Scope
 
 def gen_cases(rng, tier):
     cases = []
-    n_sync, n_async, nops = (220, 60, 40) if tier == 'quick' else (2500, 700, 400)
+    n_sync, n_async, nops = (150, 40, 40) if tier == 'quick' else (2500, 700, 400)
     for rd, n in ((1, n_sync), (2, n_async), (3, n_async), (8, n_async)):
         for k in range(n):
             members, eof = rdflat.gen_file(rng, nmax=6 if tier == 'quick' else 10, big=0.08)
